@@ -1,5 +1,6 @@
 import CifModel.Lemmas.FillRun
 import CifModel.Lemmas.FillLines
+import CifModel.Lemmas.ScanBuf
 /-
   Property C08 — parse results are independent of line-terminator style and buffer boundaries.
 
@@ -16,7 +17,7 @@ import CifModel.Lemmas.FillLines
   stops checking.
 -/
 namespace CifModel
-open Model.Fill Spec.Eol Gen
+open Model.Fill Spec.Eol Gen Model.ScanBuf
 
 /-- the tree's get_first_char() folds a look-ahead CR (repair of finding G1, /repo commit a8669bf) -/
 theorem C08_firstChar_link : ParseConsts.firstCharFoldsSecondCR = true := by decide
@@ -101,6 +102,53 @@ theorem C08_cex_three_cr :
     lineAfter isEolDefault [13, 13, 13, 97] = 4 ∧
     lineCount isEolDefault (seenBy true [5, 5] ⟨[[13, 13, 13, 97]]⟩).1 = 4 := by decide
 
+/-- **C08, buffer moves**: for EVERY scanner state satisfying the pointer invariant
+    `0 ≤ text_start ≤ tvalue_start ≤ next_char ≤ buffer_limit ≤ buffer_size` and every one of the cases of get_more_chars()
+    (empty → reset; less than BUF_MIN_FILL room → memmove to the front if the retained text is shorter than half the buffer,
+    else a buffer of twice the size filled from `text_start`; otherwise nothing), followed by the arrival of any fill that
+    fits: the retained token text (`text_start` … `next_char`) and the token-value offset (`tvalue_start − text_start`)
+    are unchanged, the invariant holds again, and — the scanner having scanned everything buffered, as at every call
+    site — nothing unread is lost: what is unread afterwards is exactly the fill. -/
+theorem C08_buffer_moves_preserve_token (b : SB) (hinv : b.Inv) (units : Str)
+    (hfit : units.length ≤ (makeRoom ParseConsts.bufMinFill b).room) :
+    let b' := append (makeRoom ParseConsts.bufMinFill b) units
+    b'.Inv ∧ b'.tokenText = b.tokenText ∧ b'.tvalueOffset = b.tvalueOffset ∧
+    (b.next = b.limit → b'.unread = units) := by
+  have m := makeRoom_spec ParseConsts.bufMinFill b hinv
+  have a := append_spec (makeRoom ParseConsts.bufMinFill b) units m.1 hfit
+  refine ⟨a.1, by rw [a.2.1, m.2.1], by rw [a.2.2.1, m.2.2.1], fun h => ?_⟩
+  rw [a.2.2.2, (m.2.2.2 h).1]; rfl
+
+/-- the case split itself never loses the token, whichever case applies (stated per case for the record) -/
+theorem C08_buffer_cases (b : SB) (hinv : b.Inv) :
+    (whichCase ParseConsts.bufMinFill b = .reset ∨ whichCase ParseConsts.bufMinFill b = .move ∨
+     whichCase ParseConsts.bufMinFill b = .double ∨ whichCase ParseConsts.bufMinFill b = .append) ∧
+    (makeRoom ParseConsts.bufMinFill b).tokenText = b.tokenText ∧
+    (makeRoom ParseConsts.bufMinFill b).tvalueOffset = b.tvalueOffset ∧ (makeRoom ParseConsts.bufMinFill b).Inv := by
+  have m := makeRoom_spec ParseConsts.bufMinFill b hinv
+  refine ⟨?_, m.2.1, m.2.2.1, m.1⟩
+  unfold whichCase
+  by_cases h1 : b.textStart ≥ b.limit
+  · simp [h1]
+  · by_cases h2 : b.size < b.limit + ParseConsts.bufMinFill
+    · by_cases h3 : (b.next - b.textStart) * 2 < b.size <;> simp [h1, h2, h3]
+    · simp [h1, h2]
+
+/-- **C08, the request sizes are positive**: starting from the buffer cif_parse_internal allocates, every read of
+    get_more_chars() asks for at least BUF_MIN_FILL ≥ 1 units — the hypothesis `∀ n ∈ counts, 1 ≤ n` of the chunking
+    theorems is what the buffer bookkeeping guarantees.  (Invariant: the buffer is at least 2·BUF_MIN_FILL long; it is
+    64·BUF_MIN_FILL initially and only ever doubles.) -/
+theorem C08_buffer_room (b : SB) (hinv : b.Inv) (hsize : 2 * ParseConsts.bufMinFill ≤ b.size) :
+    1 ≤ (makeRoom ParseConsts.bufMinFill b).room ∧ ParseConsts.bufMinFill ≤ (makeRoom ParseConsts.bufMinFill b).room ∧
+    2 * ParseConsts.bufMinFill ≤ (makeRoom ParseConsts.bufMinFill b).size := by
+  have r := makeRoom_room ParseConsts.bufMinFill b hinv hsize
+  have : 1 ≤ ParseConsts.bufMinFill := by decide
+  exact ⟨by omega, r.1, r.2⟩
+
+theorem C08_buffer_init : (SB.init ParseConsts.bufSizeInitial).Inv ∧ 2 * ParseConsts.bufMinFill ≤ (SB.init ParseConsts.bufSizeInitial).size := by
+  refine ⟨⟨Nat.le_refl _, Nat.le_refl _, Nat.le_refl _, Nat.zero_le _, ?_⟩, by decide⟩
+  simp [SB.init]
+
 /-- FULL statement of the third part of C08 (owned by the lexer group: it needs the token-level model `tokens`, the
     scanner's reading of a unit stream as (type, text, line) triples): lengthening insignificant whitespace — inserting a
     blank or a tab next to a blank, or an empty line after a line terminator — anywhere before a construct never changes
@@ -119,6 +167,10 @@ example : convertFill [97, 13, 10, 98, 13, 10, 99] = ([97, 10, 98, 10, 99, 10, 9
 -- a re-spelling with all three styles, and an inadmissible one (bare CR directly before bare LF)
 example : respell [1, 2, 0] [97, 10, 10, 98, 10] = [97, 13, 10, 13, 98, 10] ∧ admissible false [1, 2, 0] [97, 10, 10, 98, 10] = true := by decide
 example : admissible false [2, 0] [10, 10] = false ∧ normalizeEOL (respell [2, 0] [10, 10]) ≠ [10, 10] := by decide
+-- the buffer moves on a concrete state: a 3-unit token `bcd` with its value starting at `c`, retained while `a` is dropped
+example : (makeRoom 4 ⟨[97, 98, 99, 100, 0, 0], 6, 4, 4, 1, 2⟩) = ⟨[98, 99, 100, 0, 0, 0, 0, 0, 0, 0, 0, 0], 12, 3, 3, 0, 1⟩ := by decide
+example : (makeRoom 5 ⟨[97, 98, 99, 100, 0, 0, 0, 0], 8, 4, 4, 2, 3⟩) = ⟨[99, 100, 99, 100, 0, 0, 0, 0], 8, 2, 2, 0, 1⟩ := by decide
+example : whichCase 4 ⟨[97, 98, 99, 100, 0, 0], 6, 4, 4, 4, 4⟩ = .reset := by decide
 -- HANDLE_EOL on raw CR LF / CR / LF mixtures
 example : lineCount isEolDefault [10, 13, 10, 13, 13, 10, 32, 13] = 6 := by decide
 
